@@ -244,3 +244,94 @@ theorem pickTip_greatest (t : Wk.Rec) (l : List Wk.Rec) (hm : t ∈ l) (hv : val
   pickTip_of_greatest t l none (Or.inr ⟨hm, fun _ h => by cases h⟩) hv hall
 
 end Run
+
+namespace Run
+open W
+
+theorem tipLt_trans (a b c : Wk.Rec) (h1 : tipLt a b = true) (h2 : tipLt b c = true) : tipLt a c = true := by
+  simp only [tipLt, Bool.or_eq_true, Bool.and_eq_true, decide_eq_true_eq, beq_iff_eq] at h1 h2 ⊢
+  rcases h1 with h1 | ⟨e1, l1⟩ <;> rcases h2 with h2 | ⟨e2, l2⟩
+  · left; omega
+  · left; omega
+  · left; omega
+  · right; exact ⟨by omega, lexLt_trans _ _ _ l1 l2⟩
+
+theorem tipLt_irrefl (a : Wk.Rec) : tipLt a a = false := by
+  cases e : tipLt a a with
+  | false => rfl
+  | true => have := tipLt_asymm a a e; rw [e] at this; cases this
+
+/-- fold invariant: the running best is a fully validated member of what has been seen, and nothing seen is greater -/
+theorem pickTip_fold_sound : ∀ (l seen : List Wk.Rec) (best : Option Wk.Rec),
+    (∀ b, best = some b → b ∈ seen ∧ validScripts b = true ∧ ∀ r ∈ seen, validScripts r = true → tipLt b r = false) →
+    (best = none → ∀ r ∈ seen, validScripts r = false) →
+    ∀ t, (l.filter validScripts).foldl (fun best r => match best with
+      | none => some r
+      | some b => if tipLt b r then some r else some b) best = t →
+    (∀ b, t = some b → b ∈ seen ++ l ∧ validScripts b = true ∧ ∀ r ∈ seen ++ l, validScripts r = true → tipLt b r = false) ∧
+    (t = none → ∀ r ∈ seen ++ l, validScripts r = false) := by
+  intro l
+  induction l with
+  | nil =>
+    intro seen best hs hn t ht
+    simp only [List.filter_nil, List.foldl_nil] at ht
+    subst ht
+    simpa using ⟨hs, hn⟩
+  | cons x xs ih =>
+    intro seen best hs hn t ht
+    have hseen : seen ++ x :: xs = (seen ++ [x]) ++ xs := by simp
+    rw [hseen]
+    by_cases hx : validScripts x = true
+    · rw [List.filter_cons_of_pos hx, List.foldl_cons] at ht
+      refine ih (seen ++ [x]) _ ?_ ?_ t ht
+      · intro b hb
+        cases best with
+        | none =>
+          simp only [Option.some.injEq] at hb; subst hb
+          refine ⟨by simp, hx, fun r hr hv => ?_⟩
+          rcases List.mem_append.mp hr with hr | hr
+          · have := hn rfl r hr; rw [hv] at this; cases this
+          · simp only [List.mem_singleton] at hr; subst hr; exact tipLt_irrefl _
+        | some b0 =>
+          obtain ⟨m0, v0, g0⟩ := hs b0 rfl
+          by_cases c : tipLt b0 x = true
+          · simp only [c, if_true, Option.some.injEq] at hb; subst hb
+            refine ⟨by simp, hx, fun r hr hv => ?_⟩
+            rcases List.mem_append.mp hr with hr | hr
+            · cases e : tipLt x r with
+              | false => rfl
+              | true => have := tipLt_trans _ _ _ c e; rw [g0 r hr hv] at this; cases this
+            · simp only [List.mem_singleton] at hr; subst hr; exact tipLt_irrefl _
+          · have c' : tipLt b0 x = false := by simpa using c
+            simp only [c', Bool.false_eq_true, if_false, Option.some.injEq] at hb; subst hb
+            refine ⟨by simp [m0], v0, fun r hr hv => ?_⟩
+            rcases List.mem_append.mp hr with hr | hr
+            · exact g0 r hr hv
+            · simp only [List.mem_singleton] at hr; subst hr; exact c'
+      · intro h
+        cases best with
+        | none => cases h
+        | some b0 => by_cases c : tipLt b0 x = true <;> simp [c] at h
+    · rw [List.filter_cons_of_neg hx] at ht
+      have hx' : validScripts x = false := by simpa using hx
+      refine ih (seen ++ [x]) best ?_ ?_ t ht
+      · intro b hb
+        obtain ⟨m0, v0, g0⟩ := hs b hb
+        refine ⟨by simp [m0], v0, fun r hr hv => ?_⟩
+        rcases List.mem_append.mp hr with hr | hr
+        · exact g0 r hr hv
+        · simp only [List.mem_singleton] at hr; subst hr; rw [hx'] at hv; cases hv
+      · intro h r hr
+        rcases List.mem_append.mp hr with hr | hr
+        · exact hn h r hr
+        · simp only [List.mem_singleton] at hr; subst hr; exact hx'
+
+/-- the tip, characterised with no hypothesis on the table: it is a fully validated member and no fully validated record is
+    greater in `(height, hash)` order; there is no tip exactly when nothing is fully validated -/
+theorem pickTip_sound (l : List Wk.Rec) :
+    (∀ t, pickTip l = some t → t ∈ l ∧ validScripts t = true ∧ ∀ r ∈ l, validScripts r = true → tipLt t r = false) ∧
+    (pickTip l = none → ∀ r ∈ l, validScripts r = false) := by
+  have := pickTip_fold_sound l [] none (fun _ h => by cases h) (fun _ r hr => by cases hr) (pickTip l) rfl
+  simpa using this
+
+end Run
